@@ -203,7 +203,7 @@ Proof.
     rewrite (forallb_of_Forall _ _ IHes), (forallb_of_Forall _ _ IHbs). reflexivity.
   - intros e b l _ _ IHe IHb. cbn [tb_shp_stat]. rewrite IHe, IHb. reflexivity.
   - intros b e l _ _ IHb IHe. cbn [tb_shp_stat]. rewrite IHe, IHb. reflexivity.
-  - intros n vl e1 e2 e3 b l _ _ _ _ _ _ IH1 IH2 IH3 IHb. cbn [tb_shp_stat]. rewrite IH1, IH2, IH3, IHb. reflexivity.
+  - intros n vl e1 e2 e3 b l _ _ _ _ _ IH1 IH2 IH3 IHb. cbn [tb_shp_stat]. rewrite IH1, IH2, IH3, IHb. reflexivity.
   - intros ns ls es b l _ _ _ IHes IHb. cbn [tb_shp_stat]. rewrite (forallb_of_Forall _ _ IHes), IHb. reflexivity.
   - intros vars es l Hv _ IHes. cbn [tb_shp_stat]. rewrite (forallb_of_Forall _ _ IHes), andb_true_r.
     apply forallb_forall. rewrite Forall_forall in Hv. intros v Hin. destruct (Hv v Hin) as (n & ln & -> & _). reflexivity.
